@@ -1,6 +1,6 @@
 //! C16 — the HTML tokenizer is lossless and total: implementation side of the correspondence.
 //!
-//! plain case : {"bytes": "<hex>"}
+//! plain case : {"bytes": "<hex>" [, "ctx": "<ASCII context tag>" (new_fragment)] [, "cdata": bool (allow_cdata)]}
 //! block case : {"exh": true, "pre": "<hex>", "alpha": "<hex>", "len": L, "lo": a, "n": c [, "expand": true]}
 //!              = the strings pre ++ w for the a-th .. (a+c-1)-th word w of length L over alpha
 //!              (base-|alpha| digits, most significant first); obs = {"n", "tok", "h"} with h the
@@ -11,7 +11,7 @@
 //!   * concat(raw() of every token incl. the final ErrorToken) ++ buffered() == input        sig bytes-lost
 //!   * every non-error token has a non-empty raw span, and next() is called at most len+1 times  sig no-progress
 //!   * tag_name() is Some for start / end / self-closing tokens                                sig tag-name-none
-//!   * when the input is valid UTF-8 every accessor returns Ok                                 sig accessor-err
+//!   * when the input is valid UTF-8 every accessor returns Ok                                 sig accessor-fails-on-valid-utf8
 //!   * no panic (caught by the framework, debug assertions + overflow checks on)               sig panic
 use redirectionio::html::{TokenType, Tokenizer};
 use rio_harness::*;
@@ -41,7 +41,18 @@ struct One {
 
 /// Run the real tokenizer on one input; OBS + oracle.
 fn observe(input: &[u8]) -> One {
-    let mut tk = Tokenizer::new(input.to_vec());
+    observe_with(input, None, true)
+}
+
+/// `ctx`: `Tokenizer::new_fragment(bytes, ctx)` instead of `new`; `cdata`: value given to `allow_cdata`.
+fn observe_with(input: &[u8], ctx: Option<&str>, cdata: bool) -> One {
+    let mut tk = match ctx {
+        Some(c) => Tokenizer::new_fragment(input.to_vec(), c.to_string()),
+        None => Tokenizer::new(input.to_vec()),
+    };
+    if !cdata {
+        tk.allow_cdata(false);
+    }
     let utf8_ok = std::str::from_utf8(input).is_ok();
     let mut toks: Vec<Value> = Vec::new();
     let mut pos = 0usize;
@@ -82,7 +93,7 @@ fn observe(input: &[u8]) -> One {
                 Ok(None) => Value::Null,
                 Err(_) => {
                     if utf8_ok {
-                        setfail(&mut fail, format!("text() failed on valid UTF-8 input {}", hex(input)), "accessor-err");
+                        setfail(&mut fail, format!("text() failed on valid UTF-8 input {}", hex(input)), "accessor-fails-on-valid-utf8");
                     }
                     json!("utf8")
                 }
@@ -110,7 +121,7 @@ fn observe(input: &[u8]) -> One {
                             Ok(_) => break,
                             Err(_) => {
                                 if utf8_ok {
-                                    setfail(&mut fail, format!("tag_attr() failed on valid UTF-8 input {}", hex(input)), "accessor-err");
+                                    setfail(&mut fail, format!("tag_attr() failed on valid UTF-8 input {}", hex(input)), "accessor-fails-on-valid-utf8");
                                 }
                                 attrs.push(json!("utf8"));
                                 break;
@@ -124,7 +135,7 @@ fn observe(input: &[u8]) -> One {
                 }
                 Err(_) => {
                     if utf8_ok {
-                        setfail(&mut fail, format!("tag_name() failed on valid UTF-8 input {}", hex(input)), "accessor-err");
+                        setfail(&mut fail, format!("tag_name() failed on valid UTF-8 input {}", hex(input)), "accessor-fails-on-valid-utf8");
                     }
                     json!(["utf8", false, []])
                 }
@@ -171,7 +182,7 @@ fn rand_name(rng: &mut Prng) -> String {
     const NAMES: &[&str] = &[
         "a", "p", "div", "b", "em", "br", "img", "input", "meta", "html", "body", "head", "script", "SCRIPT", "Script", "style", "STYLE", "title", "Title",
         "textarea", "TEXTAREA", "xmp", "iframe", "noembed", "noframes", "noscript", "plaintext", "scriptx", "styl", "s", "i", "n", "t", "x", "P", "DIV", "h1",
-        "my-el", "a:b", "é", "aÉ", "x\u{212a}",
+        "my-el", "a:b", "é", "aÉ", "x\u{212a}", "a\u{e0}", "b\u{c5}c", "n\u{a0}", "t\u{85}x", "h\u{65e5}", "q\u{10020}", "e\u{1f085}z",
     ];
     rng.pick(NAMES).to_string()
 }
@@ -185,8 +196,14 @@ fn rand_text(rng: &mut Prng) -> String {
 }
 
 fn rand_attr(rng: &mut Prng) -> String {
-    const KEYS: &[&str] = &["id", "class", "HREF", "data-x", "disabled", "é", "a=b", "x/y", "", "=", "onclick", "V"];
-    const VALS: &[&str] = &["", "1", "a b", "x>y", "a'b", "a\"b", "é", "/", "a=b", "&quot;", "</p", "\u{0}", "日"];
+    const KEYS: &[&str] = &[
+        "id", "class", "HREF", "data-x", "disabled", "é", "a=b", "x/y", "", "=", "onclick", "V", "\u{e0}", "k\u{c5}", "\u{a0}k", "x\u{85}y", "\u{65e5}\u{672c}", "\u{10020}", "d\u{1f085}",
+    ];
+    // incl. 2/3/4-byte characters whose continuation bytes are 0x85 / 0xA0 (Latin-1 "whitespace")
+    const VALS: &[&str] = &[
+        "", "1", "a b", "x>y", "a'b", "a\"b", "é", "/", "a=b", "&quot;", "</p", "\u{0}", "日", "\u{e0}", "v\u{c5}w", "\u{a0}", "a\u{a0}b", "\u{85}", "x\u{85}", "\u{2005}", "\u{20a0}", "\u{3000}",
+        "\u{65e5}\u{672c}", "\u{10020}", "\u{1f085}", "p\u{10085}q", "\u{e0}\u{a0}\u{85}",
+    ];
     let k = *rng.pick(KEYS);
     let v = *rng.pick(VALS);
     let sp = |rng: &mut Prng| *rng.pick(&["", "", " ", "  ", "\n", "\t"]);
@@ -388,7 +405,15 @@ fn gen(args: &Args, emit: &mut dyn FnMut(Value)) {
                 d
             }
         };
-        emit(json!({"bytes": hex(&bytes)}));
+        // 1 in 8: fragment context (`new_fragment`) and / or `allow_cdata(false)`
+        if rng.chance(1, 8) {
+            const CTX: &[&str] = &["title", "TITLE", "textarea", "script", "Script", "style", "plaintext", "xmp", "iframe", "noembed", "noframes", "noscript", "div", "", "scriptx"];
+            let ctx = *rng.pick(CTX);
+            let cdata = rng.chance(1, 2);
+            emit(json!({"bytes": hex(&bytes), "ctx": ctx, "cdata": cdata}));
+        } else {
+            emit(json!({"bytes": hex(&bytes)}));
+        }
     }
 }
 
@@ -446,8 +471,21 @@ fn run(case: &Value) -> Obs {
         Some(b) => b,
         None => return Obs::invalid("bytes"),
     };
-    let one = observe(&bytes);
+    let ctx = s(case, "ctx");
+    if let Some(c) = &ctx {
+        if !c.is_ascii() {
+            return Obs::invalid("non-ASCII context tag (Unicode lower-casing is not modelled)");
+        }
+    }
+    let cdata = case.get("cdata").and_then(|v| v.as_bool()).unwrap_or(true);
+    let one = observe_with(&bytes, ctx.as_deref(), cdata);
     let mut o = Obs::new(one.obs).trivial(one.ntok <= 1);
+    if ctx.is_some() {
+        o.tags.push("fragment-ctx".to_string());
+    }
+    if !cdata {
+        o.tags.push("no-cdata".to_string());
+    }
     kinds_tags(&mut o, one.kinds);
     if std::str::from_utf8(&bytes).is_err() {
         o.tags.push("invalid-utf8".to_string());
